@@ -37,15 +37,21 @@ def load_known(prop):
 def _impl_one(args):
     modname, case = args
     mod = importlib.import_module(modname)
+    req = None
     try:
         ans = mod.impl(case)
+        if isinstance(ans, tuple):
+            # the request for the model depends on what the implementation run observed
+            # (oracle rows computed with `re` on the texts of that moment)
+            ans, req = ans
+            case["req"] = req
     except BaseException as e:  # the module maps expected exceptions itself
-        ans = "harness-exc:" + type(e).__name__ + ":" + str(e)[:200]
+        ans = "harness-exc:" + type(e).__name__ + ":" + str(e)[:200] + traceback.format_exc()[-800:]
     try:
         fails = mod.oracle(case, ans)
     except BaseException as e:
         fails = ["oracle-exc:" + type(e).__name__ + ":" + str(e)[:200] + traceback.format_exc()[-600:]]
-    return ans, fails
+    return ans, fails, req
 
 
 class Check:
@@ -158,7 +164,11 @@ class Check:
             and not info["build_failed"]
         )
         cases = self.gather_cases()
-        results = self.run_impl(cases)
+        results3 = self.run_impl(cases)
+        for c, r in zip(cases, results3):
+            if r[2] is not None:
+                c["req"] = r[2]
+        results = [(r[0], r[1]) for r in results3]
         harness_err = [(c, a) for c, (a, f) in zip(cases, results) if a.startswith("harness-exc:")
                        or any(str(x).startswith("oracle-exc:") for x in f)]
         if harness_err:
@@ -268,7 +278,7 @@ class Check:
             if len(pool) > 4000 + extra:
                 break
         for c in pool:
-            a, fails = _impl_one((self.modname, c))
+            a, fails, _ = _impl_one((self.modname, c))
             for f in fails:
                 kid = mod.known_id(c, f) if hasattr(mod, "known_id") else None
                 if kid and kid in known and known[kid].get("kind") == "known":
